@@ -12,6 +12,7 @@
    conditions of C06 hold in the state after every cancellation, C06_invariant). *)
 From AL Require Import Base Api Mutex MutexApi Semaphore SemApi RwLock RwApi MutexInv MutexLive SemCount SemLive Cancel RwInv RwLive.
 From AL.Tie Require Tie_Mutex Tie_Semaphore Tie_Raw Tie_RwLock Tie_RwFutures.
+From AL.Sched Require MutexEvSched MutexEvInv MutexEvOrd.
 
 Theorem C10_mutex_no_trace : forall (ops : list mop) (arc : bool), N.of_nat (length ops) < LIVE_BOUND ->
   let x := mrun ops in
@@ -50,7 +51,19 @@ Example C10_nonvacuous :
   sw0 (m_sh y) = 2 /\ sw0 (m_sh z) = 0 /\ se0 (m_sh z) = [] /\ m_futs z = [] /\ m_guards z = [].
 Proof. vm_compute. repeat split. Qed.
 
+(* ---------- schedule half, Mutex: every interleaving of atomic actions ---------- *)
+(* On the micro-step machine of C05 (Sched/MutexEvSched.v): for EVERY schedule, when every future has been dropped or was
+   never polled — in whatever state it was dropped: pending, starved (its ticket is given back by take_mutex, then its
+   listener goes), notified — no guard is alive and nothing is in flight, the mutex is as if never used: the state word
+   is 0 and lock_ops has no entry. *)
+Theorem C10_mutex_no_trace_sched : forall (sched : list MutexEvSched.act) (nfuts : nat),
+  let s := MutexEvSched.run MutexEvSched.gen_mutex_bt nfuts sched in
+  (forall f, In f (MutexEvSched.g_futs s) -> MutexEvSched.fpc f = MutexEvSched.PIdle \/ MutexEvSched.fpc f = MutexEvSched.PGone) ->
+  MutexEvSched.g_guards s = 0 -> MutexEvSched.g_w s = 0 /\ MutexEvSched.g_ev s = [].
+Proof. rewrite MutexEvOrd.mutex_bt_premise. exact MutexEvInv.mutex_sched_no_trace. Qed.
+
 Print Assumptions C10_mutex_no_trace.
 Print Assumptions C10_sem_no_trace.
 Print Assumptions C10_rw_words_partial.
 Print Assumptions C10_rw_events.
+Print Assumptions C10_mutex_no_trace_sched.
